@@ -47,7 +47,10 @@ def start_states():
     # textual surroundings of one file (the others hold v1 / are missing)
     layout = [dict({k: ("%s@%s" % (b, lay) if k == kk else o) for k in pj.KINDS}, config="plain")
               for kk in pj.KINDS for b in ("nodef", "v2") for lay in pj.LAYOUTS for o in ("v1", "missing")]
-    return plain + shared + method + layout
+    # the truth lives in its own file; a second file of the truth's kind is also named for another kind
+    shared2 = [{"config": "shared2", "truth_kind": t, "class": c, "extra": e}
+               for t in ("function", "argparse_function") for c in ("v1", "missing") for e in ("nodef", "K", "T", "K+T", "T+K")]
+    return plain + shared + method + layout + shared2
 
 
 def setup_project(root, start):
@@ -67,6 +70,18 @@ def setup_project(root, start):
         text = {"missing": None, "nodef": pj.NODEF_TEXT, "F": F, "A": A, "F+A": F + "\n\n" + A, "A+F": A + "\n\n" + F,
                 "helper+F": pj.HELPER_TEXT + "\n\n" + F}[start["both"]]
         P.write("function", text)
+        return P
+    if cfg == "shared2":
+        t = start["truth_kind"]
+        k = "argparse_function" if t == "function" else "function"
+        P = pj.Project(root)
+        P.extra = {t: ["shared2.py"]}
+        P.files[k] = "shared2.py"
+        P.write("class", None if start["class"] == "missing" else pj.render("class", start["class"]))
+        P.write(t, pj.render(t, "v1"))
+        T, K = pj.render(t, "v1"), pj.render(k, "v1")
+        text = {"nodef": pj.NODEF_TEXT, "K": K, "T": T, "K+T": K + "\n\n" + T, "T+K": T + "\n\n" + K}[start["extra"]]
+        P.write(k, text)
         return P
     P = pj.Project(root, method_of="Trainer")
     P.write("class", None if start["class"] == "missing" else pj.render("class", start["class"]))
@@ -149,7 +164,7 @@ class C10(core.Check):
         sites = []
         transitions = 0
         left_at_cap = 0
-        start_s = ",".join("%s=%s" % (k if k in ("config", "both") else pj.SHORT[k], v) for k, v in sorted(case["start"].items()))
+        start_s = ",".join("%s=%s" % (k if k in ("config", "both", "extra", "truth_kind") else pj.SHORT[k], v) for k, v in sorted(case["start"].items()))
         cfg = case["start"].get("config", "plain")
         while frontier:
             snap, depth, path = frontier.popleft()
